@@ -1224,3 +1224,6 @@ def workload(ctx):
     ctx.floor("exhaustive_outer_of_triples", 3000)
     ctx.floor("compared", 50000)
     ctx.floor("ordering_compares", 1000)
+
+
+RULE = RULE + '  Later additions: statement programs with augmented assignment and re-used names; operator towers (3-8 levels); (operator, constant kind, side) exhaustively; registry histories; long operand lists through the construction helpers.'
